@@ -64,6 +64,7 @@ def run(run, args):
     run.oblige("correspondence: model = implementation on every case", not res[0], "%d differ" % len(res[0]))
     run.oblige("pointwise laws, untouched operands and constructor sums hold on every implementation output", not res[1], "")
     broken = standard_proof_obligations(run, "C04", THEOREMS)
+    broken += source_corollaries(run, "C04s", ['C04s_list', 'C04s_map', 'C04s_enum', 'C04s_forms_agree'], ('comp', 'props'))
     if res[1]:
         violation(run, {"failing_input": by_id[res[1][0]], "pool": pool,
                         "what": "result or operand reads differ from pointwise integer arithmetic on the listed pairs", "all_failing": res[1][:40]})
